@@ -149,3 +149,7 @@ package types
 //@   requires tx != nil && tx.data.GasPrice != nil && tx.data.Amount != nil && params.MinGasPrice != nil
 //@   ensures err == nil ==> timeStamp <= old(tx.data.Expiration) && old(tx.data.Expiration) - timeStamp <= 1800
 //@   ensures err == nil ==> old(tx.data.ChainID) == chainID && old(val(tx.data.Amount)) >= 0 && old(len(tx.data.RecipientName)) <= 100 && old(len(tx.data.Message)) <= 1024
+
+//@ func GetBox   trusted
+//@   modifies nothing
+//@   ensures result1 == nil ==> result0 != nil
